@@ -251,7 +251,8 @@ def expandWildcard (p : ProvView) (g : LGraph) : LGraph :=
   match targetTable? g with
   | none => g
   | some tgt =>
-    (writeColumns g).foldl (fun g wn =>
+    -- write columns are `Column` objects (column nodes)
+    ((writeColumns g).filter Node.isCol).foldl (fun g wn =>
       match colOf g wn with
       | some wc =>
         if wc.raw == "*" then
